@@ -86,19 +86,27 @@ def sched_property(out, info, tier, seed, pid, kinds, monitor, gen_opts=None, nc
         outcomes[val.impl_kind] += 1
         flags = dict(lazy=lazy, cache=cache, strategy=strategy, seed=sd, fine=fine, rev=rev, instant=instant if isinstance(instant, str) else sorted(instant))
         mine = [d for d in val.disc if d['kind'] in kinds or any(d['kind'].startswith(k[:-1]) for k in kinds if k.endswith('*'))]
+        fails = []
+        fid = None
+        if model is not None and monitor is not None:
+            fails = monitor_run(monitor, case, run, val, model, lazy, cache)
+            if fails:
+                hv = hyp(case, monitors.Ctx(case, model, cache)) if hyp else []
+                fid = known_match(fails[0], case, hv) if known_match else None
+                if not (fid and fid in kf and kf[fid]['status'] == 'known'): fid = None
+        if fid:
+            # the implementation's failure is the listed known finding: it is not a failure of the correspondence
+            mine = [d for d in mine if not d['kind'].startswith('impl_err:')]
         if model is not None:
             validated += 1
             if mine:
                 mismatches.append(dict(kind='trace', label=label, case=case, flags=flags, schedule=[list(k) for k in run.opened],
                                        discrepancies=mine[:3], impl_outcome=val.impl_outcome[:200]))
         if model is not None and monitor is not None:
-            fails = monitor_run(monitor, case, run, val, model, lazy, cache)
             if fails:
-                hv = hyp(case, monitors.Ctx(case, model, cache)) if hyp else []
-                fid = known_match(fails[0], case, hv) if known_match else None
                 rec = dict(kind='trace', label=label, case=case, flags=flags, schedule=[list(k) for k in run.opened],
                            observed=fails[:3], impl_outcome=val.impl_outcome[:200], violated_hypotheses=hv)
-                if fid and fid in kf and kf[fid]['status'] == 'known':
+                if fid:
                     known.setdefault(fid, rec)
                 else:
                     violations.append(rec)
@@ -125,7 +133,13 @@ def sched_property(out, info, tier, seed, pid, kinds, monitor, gen_opts=None, nc
         run_w, val_w = run_one(rec['case'], model, f.get('lazy', True), f.get('cache', True), f.get('strategy', 'random'), f.get('seed', 0), script=rec.get('schedule'))
         evaluations += 1
         fails_w = monitor_run(monitor, rec['case'], run_w, val_w, model, f.get('lazy', True), f.get('cache', True))
-        if fails_w: known.setdefault(fid, dict(observed=fails_w[:2]))
+        hv_w = hyp(rec['case'], monitors.Ctx(rec['case'], model, f.get('cache', True))) if (hyp and fails_w) else []
+        same = bool(fails_w) and (known_match is None or any(known_match(x, rec['case'], hv_w) == fid for x in fails_w))
+        if same: known.setdefault(fid, dict(observed=fails_w[:2]))
+        elif fails_w:
+            # the witness fails, but not in the listed way: a different violation
+            violations.append(dict(kind='trace', label='witness:' + fid, case=rec['case'], flags=f, schedule=rec.get('schedule'),
+                                   observed=fails_w[:3], impl_outcome=val_w.impl_outcome[:200], violated_hypotheses=[]))
         else: out.notes.append(f'known finding {fid}: witness no longer reproduces')
     for (case, flags) in extra_cases:
         handle(case, flags.get('lazy', True), flags.get('cache', True), flags.get('strategy', 'random'), flags.get('seed', 0), 'extra',
@@ -141,6 +155,28 @@ def sched_property(out, info, tier, seed, pid, kinds, monitor, gen_opts=None, nc
             instant = 'all' if r_ < 0.1 else ([f'S{i}' for i in range(case['n']) if crng.random() < 0.5] if r_ < 0.3 else ())
             handle(case, lazy, cache, strat, seed * 100 + k * 10 + vi, f'gen:{seed}:{k}:{vi}', fine=fine, rev=rev, instant=instant)
         if tier == 'quick' and time.time() - t0 > 150: break
+    # directed search: the correspondence broke but no run violated the property itself - look around the scenarios on
+    # which model and implementation differ (same topology, fresh behaviours and schedules) for a concrete failing input
+    searched = 0
+    if model is not None and monitor is not None and mismatches and not violations:
+        base = [m['case'] for m in mismatches[:6]]
+        budget = 150 if tier == 'quick' else 1200
+        t1 = time.time(); srng = random.Random(seed * 31 + 5)
+        while time.time() - t1 < budget and not violations and searched < 6000:
+            c0 = base[searched % len(base)]
+            c = gen.mutate_case(srng, c0) if searched >= len(base) else c0
+            lazy, cache = srng.choice(variants)
+            r_ = srng.random()
+            strat = f"starve:S{srng.randrange(c['n'])}" if r_ < 0.5 else gen.pick_strategy(srng, c)
+            r_ = srng.random()
+            instant = 'all' if r_ < 0.1 else ([f'S{i}' for i in range(c['n']) if srng.random() < 0.5] if r_ < 0.3 else ())
+            try:
+                handle(c, lazy, cache, strat, seed * 100 + searched, f'search:{seed}:{searched}', instant=instant)
+            except Exception as e:     # a mutated scenario the harness cannot build is not a finding
+                out.notes.append(f'search case skipped: {type(e).__name__}: {e}'[:200])
+            searched += 1
+        out.notes.append(f'directed search around {len(base)} mismatching scenarios: {searched} runs, '
+                         + ('found a failing input' if violations else 'no failing input'))
     if model is not None:
         model.close()
         out.add_obligation(f'correspondence: trace validation of the real scheduler against the extracted model ({", ".join(sorted(kinds))})',
@@ -163,7 +199,7 @@ def sched_property(out, info, tier, seed, pid, kinds, monitor, gen_opts=None, nc
                 'non-trivial = the property-specific mechanism was exercised (see nontrivial_rule)',
         'samples': samples, 'outcome_histogram': dict(outcomes), 'feature_histogram': dict(feat),
         'monitor_failures': len(violations), 'correspondence_mismatches': len(mismatches),
-        'cases_outside_hypotheses': dict(hyp_excluded), 'known_finding_hits': list(known)})
+        'cases_outside_hypotheses': dict(hyp_excluded), 'directed_search_runs': searched, 'known_finding_hits': list(known)})
     return dict(mismatches=mismatches, violations=violations)
 
 
